@@ -1,4 +1,46 @@
-(* C01 — placeholder while the proofs are being built; replaced below. *)
-From DV Require Import Text Delta.
-Example C01_placeholder : Delta.rows_of (mkCfg false 4 32) (IRaw nil) = 1.
-Proof. reflexivity. Qed.
+(* C01 — every hunk line is shown exactly once, in order, with its text intact.
+   Statements only, over the line state machine model Delta.v (tied to the code by the
+   correspondence check of tools/check_c01.py). *)
+From Coq Require Import String.
+From Coq Require Import List Bool NArith.
+Import ListNotations.
+From DV Require Import Text Delta DeltaFacts.
+
+(* The history of a state: everything rendered so far, in the order in which it reaches
+   the writer = written ++ output buffer ++ buffered removed lines ++ buffered added lines.
+
+   From ANY state (whatever input came before: other files, other hunks, a hunk cut short,
+   buffered lines of any number), a hunk header line followed by its body lines extends the
+   history by exactly one hunk-header item and then one item per body line, in input order,
+   each being the line with only its marker column removed and its tabs expanded
+   ([body_item]); for every tab width, buffer size and both settings of color_only. *)
+Theorem C01_hunk_once_in_order : forall c s i r frag n body,
+  parse_hunk_header (64%N :: 64%N :: r) = Some (frag, n) ->
+  Forall (fun l => body_line l = true) body -> body <> [] ->
+  all_items (steps c (number_from i ((64%N :: 64%N :: r) :: body)) s) =
+  all_items s ++ [(i, IHunkHeader frag n (64%N :: 64%N :: r))] ++ render_body c (S i) body.
+Proof. exact hunk_once_in_order. Qed.
+
+(* One body line, from any hunk state: exactly that line is added (plus the pending hunk
+   header if it is the first), and the bookkeeping invariant is kept. *)
+Theorem C01_body_line_step : forall c s i l,
+  in_hunk s = true -> body_line l = true -> HInv s ->
+  all_items (step c s (i, l)) = all_items s ++ hdr_items s ++ [(i, body_item c l)] /\
+  HInv (step c s (i, l)) /\ in_hunk (step c s (i, l)) = true /\ hdr_items (step c s (i, l)) = [].
+Proof. exact hunk_body_step. Qed.
+
+(* What is written is never revised: the written output only grows, for every line. *)
+Theorem C01_written_only_grows : forall c s il, exists d, out (step c s il) = out s ++ d.
+Proof. exact ext_step. Qed.
+
+(* Non-vacuity: a two-file diff whose first hunk ends in changed lines followed by a
+   mode-only section (the shape of repaired defect F1): every line once, in order, the
+   header of the second file after the last line of the first. *)
+Example C01_example :
+  map snd (run (mkCfg false 4 32)
+    [lit "diff --git a/x b/x"%string; lit "--- a/x"%string; lit "+++ b/x"%string; lit "@@ -1,2 +1,2 @@"%string;
+     lit " c"%string; lit "-o"%string; lit "+n"%string; lit "diff --git a/y b/y"%string; lit "old mode 100644"%string;
+     lit "new mode 100755"%string]) =
+  [IFileHeader (lit "x"%string) []; IHunkHeader [] 1 (lit "@@ -1,2 +1,2 @@"%string); ILine KZero (lit "c"%string);
+   ILine KMinus (lit "o"%string); ILine KPlus (lit "n"%string); IFileHeader (lit "y"%string) (lit "mode +x"%string)].
+Proof. vm_compute. reflexivity. Qed.
